@@ -170,6 +170,15 @@ func (s *Sched) enabled(t *Thread) bool {
 	if t.want != nil && !t.want.free(t.wantW, t) {
 		return false
 	}
+	if t.want != nil && !t.wantW {
+		// sync.RWMutex: a blocked Lock call excludes new readers (also a reader that already holds the lock: recursive read
+		// locking deadlocks as soon as a writer gets in between)
+		for _, u := range s.Threads {
+			if u != t && !u.done && u.want == t.want && u.wantW {
+				return false
+			}
+		}
+	}
 	if t.waitCond != nil && !t.waitCond() {
 		return false
 	}
@@ -314,11 +323,7 @@ func Acquire(l *LockState, write bool, label string) {
 	}
 	s := cur
 	t := s.running
-	if !write && l.Readers[t] > 0 {
-		// re-entrant read lock by the same thread: allowed by the model as long as no writer waits
-		l.Readers[t]++
-		return
-	}
+	// (a re-entrant read lock is an ordinary acquisition: it is granted unless a writer waits, see enabled)
 	t.Kind = "lock"
 	if write {
 		t.Label = "W " + label
